@@ -118,24 +118,68 @@ def solve_text(text, timeout_s=10, strings=None, solvers=None):
 
 
 def discharge(obligations, timeout_s=10, jobs=None, progress=None):
-    """obligations: list of engine.Obligation -> list of result dicts (same order)."""
+    """obligations: list of engine.Obligation -> (list of result dicts (same order), smt2 texts).
+
+    Phase 1: every VC on z3 alone with a short budget (most are immediate), one process per core.
+    Phase 2: what is left on the whole portfolio concurrently (z3 5.1, cvc5, z3 4.8), fewer VCs at a time so
+    that the budget is not eaten by contention."""
     texts = [to_smt2(o.pc, o.goal, get_model=True) for o in obligations]
     results = [None] * len(texts)
-    with cf.ThreadPoolExecutor(max_workers=jobs or max(4, NPROC // 2)) as ex:
-        futs = {ex.submit(solve_text, t, timeout_s): i for i, t in enumerate(texts)}
+    quick = max(2, min(4, timeout_s // 2))
+    with cf.ThreadPoolExecutor(max_workers=jobs or max(2, NPROC - 2)) as ex:
+        futs = {ex.submit(solve_text, t, quick, None, ["z3new"]): i for i, t in enumerate(texts)}
         for f in cf.as_completed(futs):
-            i = futs[f]
-            results[i] = f.result()
-            results[i]["smt2_len"] = len(texts[i])
+            results[futs[f]] = f.result()
+    rest = [i for i, r in enumerate(results) if r["status"] not in ("sat", "unsat")]
+    if rest:
+        with cf.ThreadPoolExecutor(max_workers=max(2, (jobs or NPROC) // 3)) as ex:
+            futs = {ex.submit(solve_text, texts[i], timeout_s): i for i in rest}
+            for f in cf.as_completed(futs):
+                i = futs[f]
+                r = f.result()
+                r["time"] = round(r["time"] + results[i]["time"], 3)
+                results[i] = r
+    for i, r in enumerate(results):
+        r["smt2_len"] = len(texts[i])
     return results, texts
 
 
-def probe(pcs, timeout_s=3, jobs=None):
-    """Vacuity probes: each path condition must NOT be unsatisfiable."""
-    texts = [to_smt2(pc) for pc in pcs]
-    out = [None] * len(texts)
-    with cf.ThreadPoolExecutor(max_workers=jobs or NPROC) as ex:
-        futs = {ex.submit(solve_text, t, timeout_s, None, ["z3new"]): i for i, t in enumerate(texts)}
+def probe(probes, timeout_s=3, jobs=None):
+    """Vacuity probes. probes: tuples (name, pc[, pc_before]). Returns the list of names that are vacuous:
+    pc unsatisfiable although pc_before (when given) is not -- i.e. the step itself introduced a contradiction.
+    Probes named '...normal exit reachable' are aggregated per function: at least one must be satisfiable."""
+    jobs_ = []
+    for k, pr in enumerate(probes):
+        jobs_.append((k, "pc", to_smt2(pr[1])))
+    out = {}
+    with cf.ThreadPoolExecutor(max_workers=jobs or max(2, NPROC - 2)) as ex:
+        futs = {ex.submit(solve_text, t, timeout_s, None, ["z3new"]): (k, w) for k, w, t in jobs_}
         for f in cf.as_completed(futs):
-            out[futs[f]] = f.result()
-    return out
+            out[futs[f]] = f.result()["status"]
+    # second round: for unsat ones with a base, is the base unsat as well (dead path)?
+    need = [k for k, pr in enumerate(probes) if out[(k, "pc")] == "unsat" and len(pr) > 2 and pr[2] is not None]
+    with cf.ThreadPoolExecutor(max_workers=jobs or max(2, NPROC - 2)) as ex:
+        futs = {ex.submit(solve_text, to_smt2(probes[k][2]), timeout_s, None, ["z3new"]): k for k in need}
+        for f in cf.as_completed(futs):
+            out[(futs[f], "base")] = f.result()["status"]
+    vacuous = []
+    exits = {}
+    for k, pr in enumerate(probes):
+        name = pr[0]
+        st = out[(k, "pc")]
+        if "normal exit reachable" in name:
+            fn = name.split("::")[0]
+            exits[fn] = exits.get(fn, False) or st != "unsat"
+            continue
+        if st == "unsat":
+            if len(pr) > 2 and pr[2] is not None:
+                if out.get((k, "base")) != "unsat":
+                    vacuous.append(name)
+            elif "body reachable" in name:
+                continue       # a loop body that is dead on one path is not vacuity; entry probes guard the contract
+            else:
+                vacuous.append(name)
+    for fn, ok in exits.items():
+        if not ok:
+            vacuous.append(fn + "::no normal exit is reachable under the contract")
+    return vacuous
